@@ -137,6 +137,41 @@ def filter_closed(prog, chk):
     chk.ob(bool(ac), "A14.passthrough-filter", "OtherElement:classes", oe.where(), "the element's classes are re-attached to the copied element", "classes are dropped from the copied element")
 
 
+_EVAL_KEYS = {}
+
+
+def _evaluated_keys(prog, b, method, line):
+    """a removal whose key is not a constant in the MIR (it comes out of a table-driven loop, or through a helper's
+    parameter): the literal keys the abstract evaluator sees reaching that call line, or None when any is unknown"""
+    from sa import algebra as A
+
+    ck = (id(prog), b.path, method)
+    if ck not in _EVAL_KEYS:
+        calls = []
+        for nm in ("rect", "ellipse", "line", "text"):
+            try:
+                ev = A.Evaluator(prog, watch=(method,), name_case=nm, opaque=["svgdx::element::SvgElement::split_compound_attr"])
+                if b.path not in ev.by_path:
+                    break
+                ev.summary(b.path)
+                calls += ev.calls
+            except Exception:
+                calls = [dict(line=None, args=[None])]
+                break
+        _EVAL_KEYS[ck] = calls
+    at = [c for c in _EVAL_KEYS[ck] if c.get("line") == line]
+    if not at:
+        return None
+    out = []
+    for c in at:
+        a0 = c["args"][0] if c["args"] else None
+        if a0 is None or A.is_form(a0) or a0[0] != "str":
+            return None
+        if a0[1] not in out:
+            out.append(a0[1])
+    return out
+
+
 def consumed(prog, chk):
     with open(SPEC) as fh:
         svg = set(json.load(fh)["attributes"])
@@ -156,6 +191,8 @@ def consumed(prog, chk):
                     names = [k["str"] for k in o[1]["array"] if isinstance(k, dict) and "str" in k]
             where = b.where(bb, t.get("line"))
             root = prog.bodies[b.root].path if b.root and b.root in prog.bodies else b.path
+            if names is None and "{closure" not in b.path and root not in DYNAMIC_OK:
+                names = _evaluated_keys(prog, b, c.path.split("::")[-1], t.get("line"))
             if names is None:
                 n += 1
                 chk.ob(root in DYNAMIC_OK, "A14.consumed-standard", f"{b.short}:dynamic", where, f"computed-key removal: {DYNAMIC_OK.get(root)}", f"{b.short} removes attributes by a computed key; not in the reviewed list (a standard attribute could be consumed without being re-emitted)", by="table")
